@@ -1,22 +1,22 @@
 (* C04 property theorems only.  Model: Session.v (step functions of ShouldRespond,
    shouldRespondDelta, Send, sendDelta, Proxy watched-resource helpers) and Model.v (closed loops).
-   nil_policy: NilCrash = the ErrorDetail closure as first read (dereferences nil, K14),
-   NilIgnore = the closure guards nil. *)
+   nil_policy: = the ErrorDetail closure as first read (dereferences nil, K14),
+   = the closure guards nil. *)
 From V Require Import lib.Verdict C04.Model C04.Proofs C04.ProofsSotw C04.ProofsDelta.
 Open Scope N_scope.
 
 (* ---------------------------------------------------------------- rows, SotW *)
 
-Theorem C04_first_request_responds : forall p st r,
+Theorem C04_first_request_responds : forall st r,
   r_err r = None -> should_unsubscribe r = false -> r_nonce r = 0 ->
-  should_respond p st r = (Resp true [], new_watched_resource st (r_ty r) (r_names r)).
+  should_respond st r = (Resp true [], new_watched_resource st (r_ty r) (r_names r)).
 Proof. exact first_request_responds. Qed.
 Print Assumptions C04_first_request_responds.
 
 (* unknown type on this stream: answered even though the request carries a nonce *)
-Theorem C04_reconnect_responds : forall p st r,
+Theorem C04_reconnect_responds : forall st r,
   r_err r = None -> should_unsubscribe r = false -> st (r_ty r) = None ->
-  should_respond p st r = (Resp true [], new_watched_resource st (r_ty r) (r_names r)).
+  should_respond st r = (Resp true [], new_watched_resource st (r_ty r) (r_names r)).
 Proof. exact reconnect_responds. Qed.
 Print Assumptions C04_reconnect_responds.
 
@@ -25,83 +25,83 @@ Theorem C04_new_watch_records_request : forall st t ns,
 Proof. exact new_watched_has_names. Qed.
 Print Assumptions C04_new_watch_records_request.
 
-Theorem C04_added_names_respond : forall p st r w,
+Theorem C04_added_names_respond : forall st r w,
   r_err r = None -> should_unsubscribe r = false -> st (r_ty r) = Some w ->
   r_nonce r <> 0 -> r_nonce r = nonce_sent w -> diff (norm (r_names r)) (names w) <> [] ->
-  (exists s, fst (should_respond p st r) = Resp true s) /\
-  record (snd (should_respond p st r)) (r_ty r) = norm (r_names r).
+  (exists s, fst (should_respond st r) = Resp true s) /\
+  record (snd (should_respond st r)) (r_ty r) = norm (r_names r).
 Proof. exact added_names_respond. Qed.
 Print Assumptions C04_added_names_respond.
 
-Theorem C04_ack_silent : forall p st r w,
+Theorem C04_ack_silent : forall st r w,
   r_err r = None -> should_unsubscribe r = false -> st (r_ty r) = Some w ->
   r_nonce r <> 0 -> r_nonce r = nonce_sent w -> always_respond w = false ->
   norm (r_names r) = names w ->
-  fst (should_respond p st r) = Resp false [] /\
-  record (snd (should_respond p st r)) (r_ty r) = names w.
+  fst (should_respond st r) = Resp false [] /\
+  record (snd (should_respond st r)) (r_ty r) = names w.
 Proof. exact ack_silent. Qed.
 Print Assumptions C04_ack_silent.
 
 (* ... and the state after the ACK is one where the same ACK is silent again *)
-Theorem C04_ack_silent_stable : forall p st r w,
+Theorem C04_ack_silent_stable : forall st r w,
   r_err r = None -> should_unsubscribe r = false -> st (r_ty r) = Some w ->
   r_nonce r <> 0 -> r_nonce r = nonce_sent w -> always_respond w = false ->
   norm (r_names r) = names w ->
-  fst (should_respond p (snd (should_respond p st r)) r) = Resp false [].
+  fst (should_respond (snd (should_respond st r)) r) = Resp false [].
 Proof. exact ack_silent_stable. Qed.
 Print Assumptions C04_ack_silent_stable.
 
 Theorem C04_nack_silent : forall st r m,
   r_err r = Some m ->
-  fst (should_respond NilIgnore st r) = Resp false [] /\
-  record (snd (should_respond NilIgnore st r)) (r_ty r) = record st (r_ty r).
+  fst (should_respond st r) = Resp false [] /\
+  record (snd (should_respond st r)) (r_ty r) = record st (r_ty r).
 Proof. exact nack_silent. Qed.
 Print Assumptions C04_nack_silent.
 
-(* with a watch on record the NACK row holds for the code as it stands too *)
-Theorem C04_nack_silent_watched : forall p st r m w,
+(* with a watch on record the NACK is remembered in LastError *)
+Theorem C04_nack_silent_watched : forall st r m w,
   r_err r = Some m -> st (r_ty r) = Some w ->
-  should_respond p st r = (Resp false [], upd st (r_ty r) (Some (set_err w m))).
+  should_respond st r = (Resp false [], upd st (r_ty r) (Some (set_err w m))).
 Proof. exact nack_silent_watched. Qed.
 Print Assumptions C04_nack_silent_watched.
 
-Theorem C04_stale_nonce_silent : forall p st r w,
+Theorem C04_stale_nonce_silent : forall st r w,
   r_err r = None -> should_unsubscribe r = false -> st (r_ty r) = Some w ->
   r_nonce r <> 0 -> r_nonce r <> nonce_sent w ->
-  should_respond p st r = (Resp false [], st).
+  should_respond st r = (Resp false [], st).
 Proof. exact stale_nonce_silent. Qed.
 Print Assumptions C04_stale_nonce_silent.
 
-Theorem C04_unsubscribe_deletes_watch : forall p st r,
+Theorem C04_unsubscribe_deletes_watch : forall st r,
   r_err r = None -> should_unsubscribe r = true ->
-  fst (should_respond p st r) = Resp false [] /\ snd (should_respond p st r) (r_ty r) = None.
+  fst (should_respond st r) = Resp false [] /\ snd (should_respond st r) (r_ty r) = None.
 Proof. exact unsubscribe_deletes_watch. Qed.
 Print Assumptions C04_unsubscribe_deletes_watch.
 
 (* ---------------------------------------------------------------- rows, delta *)
 
-Theorem C04_delta_first_responds : forall p st r,
-  d_err r = None -> st (d_ty r) = None -> fst (should_respond_delta p st r) = Resp true [].
+Theorem C04_delta_first_responds : forall st r,
+  d_err r = None -> st (d_ty r) = None -> fst (should_respond_delta st r) = Resp true [].
 Proof. exact delta_first_responds. Qed.
 Print Assumptions C04_delta_first_responds.
 
-Theorem C04_delta_stale_nonce_silent : forall p st r w,
+Theorem C04_delta_stale_nonce_silent : forall st r w,
   d_err r = None -> st (d_ty r) = Some w -> d_nonce r <> 0 -> d_nonce r <> nonce_sent w ->
-  should_respond_delta p st r = (Resp false [], st).
+  should_respond_delta st r = (Resp false [], st).
 Proof. exact delta_stale_silent. Qed.
 Print Assumptions C04_delta_stale_nonce_silent.
 
 Theorem C04_delta_nack_silent : forall st r m,
   d_err r = Some m ->
-  fst (should_respond_delta NilIgnore st r) = Resp false [] /\
-  record (snd (should_respond_delta NilIgnore st r)) (d_ty r) = record st (d_ty r).
+  fst (should_respond_delta st r) = Resp false [] /\
+  record (snd (should_respond_delta st r)) (d_ty r) = record st (d_ty r).
 Proof. exact delta_nack_silent. Qed.
 Print Assumptions C04_delta_nack_silent.
 
-Theorem C04_delta_ack_silent : forall p st r w,
+Theorem C04_delta_ack_silent : forall st r w,
   d_err r = None -> st (d_ty r) = Some w -> d_nonce r = nonce_sent w ->
   d_sub r = [] -> d_unsub r = [] -> d_init r = [] -> always_respond w = false ->
-  fst (should_respond_delta p st r) = Resp false [].
+  fst (should_respond_delta st r) = Resp false [].
 Proof. exact delta_ack_silent. Qed.
 Print Assumptions C04_delta_ack_silent.
 
@@ -115,24 +115,23 @@ Print Assumptions C04_delta_names_are_set_update.
 
 (* ---------------------------------------------------------------- no crash on any sequence *)
 
-(* full statement for the code as first read: false (K14) *)
-Theorem C04_total_refuted : exists ops, crashed (fst (run NilCrash empty_watched ops)) = true.
-Proof. exact total_refuted. Qed.
-Print Assumptions C04_total_refuted.
+(* every op of every sequence, conformant or not, from any state, is executed and none crashes *)
+Theorem C04_total : forall ops st,
+  crashed (fst (run st ops)) = false /\
+  List.length (fst (run st ops)) = List.length ops.
+Proof. intros ops st. split; [apply run_no_crash|apply run_length]. Qed.
+Print Assumptions C04_total.
 
-(* ... and the only crash is a request with error_detail for a type without a watch *)
-Theorem C04_total_partial : forall st o,
-  fst (step NilCrash st o) = Crash -> unwatched_nack st o.
-Proof. exact step_crash_only_unwatched_nack. Qed.
-Print Assumptions C04_total_partial.
+(* in particular a NACK for a type without a watch (K14, repaired) is silent and changes nothing *)
+Theorem C04_nack_unwatched_is_noop : forall st r m,
+  r_err r = Some m -> st (r_ty r) = None -> should_respond st r = (Resp false [], st).
+Proof. intros st r m He Hs. unfold should_respond, nack. rewrite He, Hs. reflexivity. Qed.
+Print Assumptions C04_nack_unwatched_is_noop.
 
-(* once the closure guards nil: every op of every sequence, conformant or not, is executed and
-   none crashes *)
-Theorem C04_total_with_nil_guard : forall ops st,
-  crashed (fst (run NilIgnore st ops)) = false /\
-  List.length (fst (run NilIgnore st ops)) = List.length ops.
-Proof. intros ops st. split; [apply run_ignore_no_crash|apply run_ignore_length]. Qed.
-Print Assumptions C04_total_with_nil_guard.
+Theorem C04_delta_nack_unwatched_is_noop : forall st r m,
+  d_err r = Some m -> st (d_ty r) = None -> should_respond_delta st r = (Resp false [], st).
+Proof. intros st r m He Hs. unfold should_respond_delta, nack. rewrite He, Hs. reflexivity. Qed.
+Print Assumptions C04_delta_nack_unwatched_is_noop.
 
 (* ---------------------------------------------------------------- no request/response loop *)
 
@@ -148,33 +147,47 @@ Print Assumptions C04_no_loop_partial.
 (* a forced answer clears AlwaysRespond: it cannot repeat without a new CDS (re)initialisation *)
 Theorem C04_forced_answer_is_one_shot : forall st r,
   req_cause st r = Some CForced ->
-  exists w', snd (should_respond NilIgnore st r) (r_ty r) = Some w' /\ always_respond w' = false.
+  exists w', snd (should_respond st r) (r_ty r) = Some w' /\ always_respond w' = false.
 Proof. exact forced_consumes_flag. Qed.
 Print Assumptions C04_forced_answer_is_one_shot.
 
 Theorem C04_delta_forced_answer_is_one_shot : forall st r,
   dreq_cause st r = Some CForced ->
-  exists w', snd (should_respond_delta NilIgnore st r) (d_ty r) = Some w' /\ always_respond w' = false.
+  exists w', snd (should_respond_delta st r) (d_ty r) = Some w' /\ always_respond w' = false.
 Proof. exact delta_forced_consumes_flag. Qed.
 Print Assumptions C04_delta_forced_answer_is_one_shot.
 
 (* ---------------------------------------------------------------- record = client subscription *)
 
+(* SotW, full statement (the server may answer a request without sending anything, which
+   pushXds does when the generator returns nil): false.  Witness: SDS; subscribe, unsubscribe,
+   re-subscribe answered-but-nothing-sent, then a subscription change carrying the nonce the client
+   still holds is classified stale. *)
+Theorem C04_record_matches_client_sotw_refuted :
+  exists t ls, is_debug t = false /\
+    let s := srun t (sinit empty_watched 0) ls in
+    s_c2s s = [] /\ s_s2c s = [] /\ s_np s = true /\ s_ln s = false /\
+    record (s_srv s) t <> norm (s_S s).
+Proof. exact record_matches_client_sotw_refuted. Qed.
+Print Assumptions C04_record_matches_client_sotw_refuted.
+
 (* SotW, any type (wildcard or not), every interleaving of client subscription changes, client
    ACKs/NACKs, server processing, server pushes and traffic of other types, FIFO channels, the
-   client possibly holding a nonce of an earlier stream: when both channels are empty and the
-   last processed message was no NACK, the server's record is the client's subscription *)
-Theorem C04_record_matches_client_sotw : forall t, is_debug t = false ->
-  forall st0 cn0 ls, st0 t = None ->
+   client possibly holding a nonce of an earlier stream - UNDER THE HYPOTHESIS that every answered
+   request is followed by a sent response (forallb sends_ok ls): when both channels are empty and
+   the last processed message was no NACK, the server's record is the client's subscription *)
+Theorem C04_record_matches_client_sotw_partial : forall t, is_debug t = false ->
+  forall st0 cn0 ls, st0 t = None -> forallb sends_ok ls = true ->
   let s := srun t (sinit st0 cn0) ls in
   s_c2s s = [] -> s_s2c s = [] -> s_np s = true -> s_ln s = false ->
   record (s_srv s) t = norm (s_S s).
 Proof. exact record_matches_client_sotw. Qed.
-Print Assumptions C04_record_matches_client_sotw.
+Print Assumptions C04_record_matches_client_sotw_partial.
 
 (* delta, non-wildcard types, clients that change subscriptions only in spontaneous requests:
-   whenever the request channel is empty (responses may be in flight, last message may even be
-   a NACK) the record is the client's subscription *)
+   whenever the request channel is empty (responses may be in flight, the last message may even be
+   a NACK, answered requests may or may not be followed by a sent response) the record is the
+   client's subscription *)
 Theorem C04_record_matches_client_delta_spontaneous : forall t, is_wildcard t = false ->
   forall st0 cn0 ls, st0 t = None -> forallb class1_label ls = true ->
   let s := drun t (dinit st0 cn0) ls in
@@ -202,26 +215,26 @@ Print Assumptions C04_record_matches_client_delta_piggyback_partial.
 
 Example C04_sotw_loop_nonvacuous :
   let s := srun EDS (sinit empty_watched 7)
-             [CSub [2; 1]; SProc 1; SPush 2; CSub [3]; CRecv (Some 1); CRecv None; SProc 3; SProc 4; SProc 5;
-              CRecv None; SProc 6] in
+             [CSub [2; 1]; SProc 1 true; SPush 2; CSub [3]; CRecv (Some 1); CRecv None; SProc 3 true; SProc 4 true;
+              SProc 5 true; CRecv None; SProc 6 true] in
   s_c2s s = [] /\ s_s2c s = [] /\ s_np s = true /\ s_ln s = false /\ record (s_srv s) EDS = [3].
 Proof. vm_compute. repeat split. Qed.
 
 Example C04_delta_loop_nonvacuous :
   let s := drun RDS (dinit empty_watched 0)
-             [DChange [1; 2] [] []; DProc 1 []; DPush 2 []; DChange [3] [1] []; DRecv None [] [];
-              DProc 3 []; DProc 4 []; DRecv (Some 1) [] []; DProc 5 []] in
+             [DChange [1; 2] [] []; DProc 1 [] true; DPush 2 []; DChange [3] [1] []; DRecv None [] [];
+              DProc 3 [] true; DProc 4 [] true; DRecv (Some 1) [] []; DProc 5 [] false] in
   forallb class1_label
-             [DChange [1; 2] [] []; DProc 1 []; DPush 2 []; DChange [3] [1] []; DRecv None [] [];
-              DProc 3 []; DProc 4 []; DRecv (Some 1) [] []; DProc 5 []] = true /\
+             [DChange [1; 2] [] []; DProc 1 [] true; DPush 2 []; DChange [3] [1] []; DRecv None [] [];
+              DProc 3 [] true; DProc 4 [] true; DRecv (Some 1) [] []; DProc 5 [] false] = true /\
   x_c2s s = [] /\ x_ok s = true /\ record (x_srv s) RDS = [2; 3].
 Proof. vm_compute. repeat split. Qed.
 
 Example C04_rows_nonvacuous :
-  let st := send (snd (should_respond NilCrash empty_watched (mkReq RDS [1] 0 None))) RDS 5 true in
-  fst (should_respond NilCrash st (mkReq RDS [1] 5 None)) = Resp false [] /\
-  fst (should_respond NilCrash st (mkReq RDS [1; 2] 5 None)) = Resp true [2] /\
-  fst (should_respond NilCrash st (mkReq RDS [1; 2] 4 None)) = Resp false [] /\
-  fst (should_respond NilCrash st (mkReq RDS [1; 2] 5 (Some 1))) = Resp false [] /\
-  fst (should_respond NilCrash st (mkReq LDS [] 5 (Some 1))) = Crash.
+  let st := send (snd (should_respond empty_watched (mkReq RDS [1] 0 None))) RDS 5 true in
+  fst (should_respond st (mkReq RDS [1] 5 None)) = Resp false [] /\
+  fst (should_respond st (mkReq RDS [1; 2] 5 None)) = Resp true [2] /\
+  fst (should_respond st (mkReq RDS [1; 2] 4 None)) = Resp false [] /\
+  fst (should_respond st (mkReq RDS [1; 2] 5 (Some 1))) = Resp false [] /\
+  fst (should_respond st (mkReq LDS [] 5 (Some 1))) = Resp false [].
 Proof. vm_compute. repeat split. Qed.
